@@ -322,6 +322,7 @@ class DebuggerGates(Scenario):
                     if issued:
                         val = issued[0].split(";")[0].split("=", 1)[1].strip('"')
                         st["jar"] = val
+                        st["jar_issued"] = int(now_at_start)  # the lifetime runs from the moment of the successful authentication
                         if model_trust(val) is not True:
                             vio("issued-cookie-not-valid", f"{val!r}")
             if kind == "resource" and status not in (200, 304):
@@ -372,6 +373,9 @@ class DebuggerGates(Scenario):
                     continue  # PIN authentication with the PIN switched off is outside the statement (observation O2 in DESIGN.md)
                 cval = cookie_value(spec.get("cookie", "absent"))
                 trust = model_trust(cval)
+                if spec.get("cookie") == "jar" and cval is not None and pin_on and trust is not None:
+                    # a cookie the debugger issued itself is judged by when it was issued, not by what its text claims
+                    trust = (clock.now - PIN_TIME) < st.get("jar_issued", 0)
                 failed_before = st["failed"]
                 calls_before = len(spy_calls)
                 now0 = clock.now
@@ -479,7 +483,7 @@ class HostValidation(Scenario):
             ref = rng.choice(trusted)
             bare = ref[1:] if ref.startswith(".") else ref
             host = rng.choice(["evil." + bare, "a.b." + bare, "evil" + bare, bare + ".evil.com", bare, bare.upper(), bare + ":8080", "x-" + bare])
-            return {"host": host, "trusted": trusted, "scheme": rng.choice(["http", "https"])}
+            return self.with_server(rng, {"host": host, "trusted": trusted, "scheme": rng.choice(["http", "https"])})
         if k == 0:
             host = rng.choice([h for h, _ in HOSTS if h is not None])
         elif k == 1:
@@ -488,7 +492,18 @@ class HostValidation(Scenario):
             host = ".".join(rng.choice(LABELS) for _ in range(rng.choice([1, 2, 2, 3, 4])))
             if rng.random() < 0.3:
                 host += rng.choice([":80", ":8080", ":", ":abc", ":443"])
-        return {"host": host, "trusted": trusted, "scheme": rng.choice(["http", "https"])}
+        case = {"host": host, "trusted": trusted, "scheme": rng.choice(["http", "https"])}
+        return self.with_server(rng, case)
+
+    @staticmethod
+    def with_server(rng: random.Random, case: dict) -> dict:
+        # the server's own name is usually one the list admits; a Host header that is present (even empty) still wins over it
+        tl = case["trusted"]
+        bare = [r[1:] if r.startswith(".") else r for r in tl]
+        case["server"] = rng.choice(bare) if bare and rng.random() < 0.7 else "srv"
+        if rng.random() < 0.04:
+            case["host"] = rng.choice(["", "", " ", ":80", "."])
+        return case
 
     def execute(self, case: dict) -> Outcome:
         from werkzeug.exceptions import SecurityError
@@ -512,7 +527,12 @@ class HostValidation(Scenario):
                 out.violate(f"{pre}/accepted-host-not-listed", f"host {host!r} was accepted against {trusted}")
         elif verdict is False and self.must_admit(host, trusted):
             out.violate(f"{pre}/listed-host-refused", f"host {host!r} was refused against {trusted}")
-        for name, f in (("get_host", lambda: get_host(case.get("scheme", "http"), host, None, trusted)), ("Request.host", lambda: self.request_host(Request, host, trusted))):
+        server = str(case.get("server", "srv")).partition(":")[0] or "srv"
+        for name, f in (
+            ("get_host", lambda: get_host(case.get("scheme", "http"), host, None, trusted)),
+            ("get_host-with-server", lambda: get_host(case.get("scheme", "http"), host, (server, 8080), trusted)),
+            ("Request.host", lambda: self.request_host(Request, host, trusted, server)),
+        ):
             try:
                 got = f()
                 if verdict is False:
@@ -530,11 +550,11 @@ class HostValidation(Scenario):
         return out
 
     @staticmethod
-    def request_host(Request, host, trusted):
+    def request_host(Request, host, trusted, server="srv"):
         class R(Request):
             trusted_hosts = trusted
 
-        return R({"REQUEST_METHOD": "GET", "HTTP_HOST": host, "wsgi.url_scheme": "http", "SERVER_NAME": "srv", "SERVER_PORT": "80", "PATH_INFO": "/", "SCRIPT_NAME": "", "QUERY_STRING": ""}).host
+        return R({"REQUEST_METHOD": "GET", "HTTP_HOST": host, "wsgi.url_scheme": "http", "SERVER_NAME": server, "SERVER_PORT": "80", "PATH_INFO": "/", "SCRIPT_NAME": "", "QUERY_STRING": ""}).host
 
     @staticmethod
     def norm(name: str) -> str | None:
